@@ -55,6 +55,10 @@ Parts == DOMAIN pend
 \* what NextOffset must return for pending position x
 Expected(x) == IF x.off >= 0 THEN x ELSE Pos(cfg.initial, "")
 
+\* pendingFault: dead = brokers whose idle connection to the client the coordinator side has closed and the client has not
+\* run into yet (the next flush over it fails: one refusal); at = broker the group coordinator is at
+NoPending == [dead |-> {}, at |-> 0]
+Hits == pendingFault.at \in pendingFault.dead
 NoCfg == [mode |-> "none", auto |-> FALSE, retry |-> 0, initial |-> -1, errors |-> FALSE]
 Stat0 == [traces |-> 0, marks |-> 0, effective |-> 0, flight_marks |-> 0, requests |-> 0,
           blocks |-> 0, flight_recommitted |-> 0, backwards_after_reset |-> 0, next_reads |-> 0,
@@ -68,7 +72,7 @@ BumpBy(s, f, n) == [s EXCEPT ![f] = @ + n]
 Init == /\ l = 1 /\ viol = {} /\ cfg = NoCfg
         /\ pend = <<>> /\ asked = <<>> /\ touched = <<>> /\ store = <<>> /\ winLow = <<>> /\ accLow = <<>>
         /\ inFlight = FALSE /\ flightMark = <<>> /\ reqs = 0 /\ closing = FALSE /\ joined = FALSE
-        /\ finalsOk = TRUE /\ refused = <<>> /\ errs = <<>> /\ envErrs = <<>> /\ pendingFault = FALSE /\ unsteer = FALSE /\ st = Stat0
+        /\ finalsOk = TRUE /\ refused = <<>> /\ errs = <<>> /\ envErrs = <<>> /\ pendingFault = NoPending /\ unsteer = FALSE /\ st = Stat0
 
 TReset ==
   /\ E.ev = "reset"
@@ -86,7 +90,7 @@ TReset ==
         /\ refused' = [p \in ps |-> 0]
         /\ errs' = [p \in ps |-> 0]
         /\ envErrs' = [p \in ps |-> 0]
-        /\ pendingFault' = FALSE /\ unsteer' = FALSE
+        /\ pendingFault' = NoPending /\ unsteer' = FALSE
   /\ inFlight' = FALSE /\ reqs' = 0 /\ closing' = FALSE /\ joined' = FALSE /\ finalsOk' = TRUE
   /\ st' = Bump("traces")
   /\ UNCHANGED viol
@@ -152,11 +156,12 @@ TCommitRet ==
   \* the client failed locally on a dead connection while the coordinator was reachable: the mark was not sent.
   /\ LET applies == cfg.mode \in {"seq", "win"} /\ reqs = 0 /\ Unsent({}) # {}
          steered == cfg.errors /\ ~unsteer /\ \A p \in Parts : envErrs[p] = 0
-     IN /\ viol' = viol \cup (IF applies /\ steered /\ ~pendingFault THEN UnsentClauses(Unsent({})) ELSE {})
+     IN /\ viol' = viol \cup (IF applies /\ steered /\ ~Hits THEN UnsentClauses(Unsent({})) ELSE {})
         /\ st' = BumpBy(BumpBy(st, "commits_unsteered", IF applies /\ ~steered THEN 1 ELSE 0),
-                        "commits_failed_on_closed_connection", IF applies /\ steered /\ pendingFault THEN 1 ELSE 0)
+                        "commits_failed_on_closed_connection", IF applies /\ steered /\ Hits THEN 1 ELSE 0)
   \* the pending fault is consumed by the flush that ran into it
-  /\ pendingFault' = IF reqs = 0 /\ (\E p \in Parts : errs[p] > 0) THEN FALSE ELSE pendingFault
+  /\ pendingFault' = IF reqs = 0 /\ (\E p \in Parts : errs[p] > 0)
+                     THEN [pendingFault EXCEPT !.dead = @ \ {pendingFault.at}] ELSE pendingFault
   /\ inFlight' = FALSE
   /\ UNCHANGED <<cfg, pend, asked, touched, store, winLow, accLow, flightMark, reqs, closing, joined, finalsOk, refused, errs, envErrs, unsteer>>
 
@@ -181,10 +186,16 @@ TCreq ==
      /\ finalsOk' = IF closing THEN finalsOk /\ allok ELSE finalsOk
      \* final attempts that carried p and did not get it stored
      \* ... by the CURRENT coordinator: an answer of a broker the group has moved away from is not a refusal of the
-     \* coordinator (the client was told to resolve the coordinator again and has to)
-     /\ refused' = [p \in Parts |-> IF closing /\ E.coordinator /\ p \notin ap /\ (\E b \in blocks : b[1] = p) THEN refused[p] + 1 ELSE refused[p]]
-     \* a request that arrives came over a live connection: an earlier idle-connection fault has been consumed
-     /\ pendingFault' = FALSE
+     \* coordinator (the client was told to resolve the coordinator again and has to). A request that arrives at a broker
+     \* came over a live connection to it; when the group moves (during Close) to a broker whose idle connection was
+     \* closed earlier, the next final attempt runs into that: one more refusal
+     /\ LET newAt == IF E.coordinator THEN (IF E.moved THEN 1 - E.broker ELSE E.broker) ELSE pendingFault.at
+            dead1 == pendingFault.dead \ {E.broker}
+            hitNext == closing /\ E.coordinator /\ E.moved /\ newAt \in dead1
+        IN /\ refused' = [p \in Parts |-> refused[p]
+                             + (IF closing /\ E.coordinator /\ p \notin ap /\ (\E b \in blocks : b[1] = p) THEN 1 ELSE 0)
+                             + (IF hitNext THEN 1 ELSE 0)]
+           /\ pendingFault' = [dead |-> IF hitNext THEN dead1 \ {newAt} ELSE dead1, at |-> newAt]
      /\ UNCHANGED <<errs, envErrs, unsteer>>
      /\ flightMark' = [p \in Parts |-> IF p \in recommitted THEN FALSE ELSE flightMark[p]]
      /\ st' = BumpBy(BumpBy(BumpBy(BumpBy(BumpBy(BumpBy(BumpBy(st, "requests", 1), "blocks", Cardinality(blocks)),
@@ -201,8 +212,8 @@ TCloseCall ==
   /\ E.ev = "close_call"
   /\ closing' = TRUE /\ joined' = E.joined /\ inFlight' = FALSE /\ reqs' = 0
   \* an idle-connection fault the client has not run into yet costs the first final attempt
-  /\ finalsOk' = ~pendingFault /\ refused' = [p \in Parts |-> IF pendingFault THEN 1 ELSE 0]
-  /\ pendingFault' = FALSE /\ unsteer' = FALSE
+  /\ finalsOk' = ~Hits /\ refused' = [p \in Parts |-> IF Hits THEN 1 ELSE 0]
+  /\ pendingFault' = [pendingFault EXCEPT !.dead = @ \ {pendingFault.at}] /\ unsteer' = FALSE
   /\ errs' = [p \in Parts |-> 0] /\ envErrs' = [p \in Parts |-> 0]
   /\ UNCHANGED <<viol, cfg, pend, asked, touched, store, winLow, accLow, flightMark, st>>
 
@@ -246,10 +257,12 @@ TErr ==
 \* connection (the next flush over it fails: one refusal); "unscripted" / "peer_reset" = not scripted: un-steers
 TCfault ==
   /\ E.ev = "cfault"
-  /\ LET scripted == E.kind \in {"pre_fin", "pre_rst"} IN
-     /\ pendingFault' = (pendingFault \/ (scripted /\ ~closing))
+  /\ LET scripted == E.kind \in {"pre_fin", "pre_rst"}
+         live == scripted /\ closing /\ E.broker = pendingFault.at    \* the connection the final attempts are using
+     IN
+     /\ pendingFault' = IF scripted /\ ~live THEN [pendingFault EXCEPT !.dead = @ \cup {E.broker}] ELSE pendingFault
      /\ unsteer' = (unsteer \/ ~scripted)
-     /\ refused' = [p \in Parts |-> IF scripted /\ closing THEN refused[p] + 1 ELSE refused[p]]
+     /\ refused' = [p \in Parts |-> IF live THEN refused[p] + 1 ELSE refused[p]]
      /\ finalsOk' = IF closing THEN FALSE ELSE finalsOk
      /\ st' = BumpBy(BumpBy(st, "coordinator_closed_idle_connection", IF scripted THEN 1 ELSE 0),
                      "unscripted_connection_events", IF scripted THEN 0 ELSE 1)
